@@ -621,7 +621,14 @@ def build_unit(udef, cover=False):
                     raise ExtractError('unknown item rewrite %r' % (r,))
             if part.get('attrs'):
                 chunk.insert_lines(0, part['attrs'], ('gen', 'verifier-attr'))
-            b.functions.append({'key': key, 'kind': 'item', 'src': relpath, 'lines': [first_line, last_line], 'sha256': sha256(raw)})
+            if part.get('auto_props'):
+                # an item verified as a whole against a spec impl (e.g. `impl PartialOrd for T`): failures inside it
+                # are attributed to these properties
+                b.functions.append({'key': key, 'kind': 'fn', 'src': relpath, 'lines': [first_line, last_line], 'sha256': sha256(raw),
+                                    'auto_props': part.get('auto_props', []), 'props': part.get('auto_props', [])})
+                b.fn_ranges.append((len(L), len(L) + len(chunk.lines) - 1, key))
+            else:
+                b.functions.append({'key': key, 'kind': 'item', 'src': relpath, 'lines': [first_line, last_line], 'sha256': sha256(raw)})
             L.extend(chunk.lines)
         elif kind == 'fn':
             drop_attr_lines(chunk)
